@@ -6,7 +6,8 @@ OV=$(python3 - <<'PY'
 import sys
 sys.path.insert(0,'/verif'); sys.dont_write_bytecode=True
 from lib import goenv
-class C: tmp='/tmp'
+import tempfile
+class C: tmp=tempfile.mkdtemp(prefix='vf-ov-')
 import os
 print(goenv.make_overlay(C()))
 PY
